@@ -277,6 +277,15 @@ func genC05Case(r *rand.Rand, clients, readers, opsPer int) c05Case {
 				ops = append(ops, c05Op{Client: cl, Kind: "mkds", DS: []string{fmt.Sprintf("sh%d", i)}, IDs: []string{fmt.Sprintf("%sw%d", gen.NsA, cl)}, Tag: tag, Sync: i})
 				continue
 			}
+			if cl == 0 && i%4 == 1 {
+				ops = append(ops, c05Op{Client: cl, Kind: "rename", DS: []string{"rnA", "rnB"}})
+				continue
+			}
+			if cl != 0 && i%4 == 1 {
+				// a new id into the dataset that is being renamed back and forth (whatever its name is right now)
+				ops = append(ops, c05Op{Client: cl, Kind: "rnwrite", DS: []string{"rnA", "rnB"}, IDs: []string{fmt.Sprintf("%srn-%d-%d", gen.NsA, cl, i)}, Tag: tag})
+				continue
+			}
 			switch k := r.Intn(100); {
 			case k < 45:
 				n := 1 + r.Intn(3)
@@ -381,6 +390,7 @@ func runC05Case(ctx *Ctx, c c05Case) {
 	for _, d := range c.Datasets {
 		core.Dsm.CreateDataset(d, nil)
 	}
+	core.Dsm.CreateDataset("rnA", nil) // renamed back and forth (rnA <-> rnB) by client 0 while others write new ids into it
 	mon := newLockMon()
 	mon.jitter = rand.New(rand.NewSource(ctx.Seed ^ int64(len(c.Ops))))
 	vh.SetLockTracer(mon.trace)
@@ -599,6 +609,72 @@ loop:
 	if ctx.Has("C19") {
 		c05Counters(ctx, id, core, prop)
 	}
+	if prop == "C05" || prop == "C19" {
+		c05RenamedDataset(ctx, id, prop, core, recs)
+	}
+}
+
+// c05RenamedDataset: the dataset that was renamed back and forth while other clients wrote new ids into it exists
+// under exactly one of its two names, has exactly one live meta-entity (under that name, none under the other), holds
+// every acknowledged write, and its items counter equals the number of distinct ids.
+func c05RenamedDataset(ctx *Ctx, id, prop string, core *hub.Core, recs [][]*c05Rec) {
+	const ns = "http://data.mimiro.io/core/dataset/"
+	a, b := core.Dsm.GetDataset("rnA"), core.Dsm.GetDataset("rnB")
+	if (a == nil) == (b == nil) {
+		ctx.Out.Viol(id, prop, "renamed-dataset-names", fmt.Sprintf("after the renames rnA<->rnB settled: rnA exists=%v, rnB exists=%v", a != nil, b != nil), nil, nil, nil)
+		return
+	}
+	name, other, ds := "rnA", "rnB", a
+	if a == nil {
+		name, other, ds = "rnB", "rnA", b
+	}
+	metas, err := obs.Listing(core.Store, core.Dsm.GetDataset("core.Dataset"), 0)
+	if err != nil {
+		return
+	}
+	live := map[string][]obs.Rec{}
+	for _, m := range metas {
+		if !m.Deleted {
+			n := strings.TrimPrefix(m.ID, ns)
+			live[n] = append(live[n], m)
+		}
+	}
+	if len(live[name]) != 1 || len(live[other]) != 0 {
+		ctx.Out.Viol(id, prop, "renamed-dataset-meta-entities", fmt.Sprintf("dataset %s (renamed back and forth under concurrent writes): %d live meta-entities under its name, %d under the name it was renamed away from", name, len(live[name]), len(live[other])), "1 / 0", fmt.Sprintf("%d / %d", len(live[name]), len(live[other])), nil)
+		return
+	}
+	feed, _, err := obs.Feed(core.Store, ds, 0, nil, false)
+	if err != nil {
+		return
+	}
+	inFeed := map[string]bool{}
+	distinct := map[string]bool{}
+	for i := range feed {
+		inFeed[tagOf(&feed[i])] = true
+		distinct[feed[i].ID] = true
+	}
+	nAck, nRen := 0, 0
+	for _, rs := range recs {
+		for _, r := range rs {
+			if r.op.Kind == "rename" && r.done && r.err == "" {
+				nRen++
+			}
+			if r.op.Kind == "rnwrite" && r.done && r.err == "" {
+				nAck++
+				if !inFeed[r.op.Tag] {
+					ctx.Out.Viol(id, prop, "acked-write-lost-during-rename", fmt.Sprintf("write %s into the dataset being renamed was acknowledged but is not in the feed of %s", r.op.Tag, name), r.op.Tag, nil, nil)
+					return
+				}
+			}
+		}
+	}
+	items, _ := live[name][0].Props[ns+"items"].(float64)
+	if int(items) != len(distinct) {
+		ctx.Out.Viol(id, prop, "items-counter-after-concurrent-renames", fmt.Sprintf("dataset %s: items=%v, %d distinct ids stored (%d acknowledged writes, %d renames)", name, items, len(distinct), nAck, nRen), len(distinct), items, nil)
+		return
+	}
+	ctx.Out.Stat("renames_under_concurrent_writes", int64(nRen))
+	ctx.Out.Stat("writes_into_dataset_being_renamed", int64(nAck))
 }
 
 func sharesDS(a, b c05Op) bool {
@@ -656,6 +732,25 @@ func c05Do(core *hub.Core, op c05Op, rec *c05Rec, visMu *sync.Mutex, vis *[]stri
 		if err := StoreBatch(core, op.DS[0], []model.Ent{c05Ent(op.IDs[0], op.Tag, 0)}, false); err != nil {
 			rec.err = err.Error()
 		}
+	case "rename":
+		for k, n := range op.DS {
+			if core.Dsm.GetDataset(n) != nil {
+				if _, err := core.Dsm.UpdateDataset(n, &server.UpdateDatasetConfig{ID: op.DS[1-k]}); err != nil {
+					rec.err = err.Error()
+				}
+				return
+			}
+		}
+	case "rnwrite":
+		for _, n := range op.DS {
+			if core.Dsm.GetDataset(n) != nil {
+				if err := StoreBatch(core, n, []model.Ent{c05Ent(op.IDs[0], op.Tag, 0)}, false); err != nil {
+					rec.err = err.Error()
+				}
+				return
+			}
+		}
+		rec.err = "dataset is between two names"
 	case "rmds":
 		if core.Dsm.GetDataset(op.DS[0]) != nil {
 			if err := core.Dsm.DeleteDataset(op.DS[0]); err != nil {
